@@ -96,7 +96,7 @@ def rand_props(rng):
         p[name] = rng.choice(SPELLINGS + ["absent"] * 3)
     p["underline"] = rng.choice(["absent"] * 3 + ["bare", "single", "none", "false", "0", "double", "true", "1"])
     p["valign"] = rng.choice([None] * 4 + ["superscript", "subscript", "baseline"])
-    p["highlight"] = rng.choice(["absent"] * 3 + ["yellow", "red", "none", "bare"])
+    p["highlight"] = rng.choice(["absent"] * 3 + ["yellow", "red", "none", "bare", "darkYellow", "lightGray", "darkBlue"])
     return p
 
 
